@@ -119,6 +119,7 @@ type paySpec struct {
 	extra  []extraAction
 	fwd    fwdSpec
 	noFwd  bool
+	apart  bool    // with two fee actions: another action (ACTION_SWAP) sits between them
 	rawMem *string // when set, the memo text verbatim
 }
 
@@ -151,10 +152,13 @@ func (p paySpec) build(cdc interface {
 	if p.swap && p.swapFirst {
 		pl.PreActions = append(pl.PreActions, swapAction())
 	}
-	for _, fl := range p.fees {
+	for k, fl := range p.fees {
 		infos := make([]*actiontypes.FeeInfo, len(fl))
 		for i, e := range fl {
 			infos[i] = e.toProto()
+		}
+		if k == 1 && p.apart {
+			pl.PreActions = append(pl.PreActions, swapAction())
 		}
 		pl.PreActions = append(pl.PreActions, &core.Action{Id: core.ACTION_FEE, Attributes: anyOf(&actiontypes.FeeAttributes{FeesInfo: infos})})
 	}
@@ -218,11 +222,14 @@ type profile struct {
 	pGasHook    int   // % of Hyperlane forwardings that go through a gas paymaster of the chain
 	pExtPanic   int   // % of orbiter packets during which an external module panics
 	wSend       int   // weight of a user's own bank send among the operation kinds
+	pRepeat     int   // % of packets that are the previous packet once more (same route), refunded by the history itself
+	pOddWire    int   // % of ICS-20 packets whose data travels as another JSON text (escapes, extra keys, key case ...)
 }
 
 // share of Hyperlane forwardings through a gas paymaster, per profile (8 where not listed)
 var gasHookShare = map[string]int{"C02": 20, "C05": 40, "C11": 30, "C01": 12, "C03": 12, "C14": 12}
 
+var oddWireShare = map[string]int{"C01": 8, "C07": 14, "C14": 6, "C16": 5, "C19": 0}
 var sendWeight = map[string]int{"C11": 8, "C14": 7, "C01": 4, "mix": 3}
 var extPanicShare = map[string]int{"C03": 12, "C01": 7, "C14": 6, "mix": 4, "C02": 3}
 
@@ -234,6 +241,17 @@ func init() {
 		}
 		if p.wSend == 0 {
 			p.wSend = sendWeight[k]
+			profiles[k] = p
+		}
+		if p.pRepeat == 0 {
+			p.pRepeat = map[string]int{"C02": 14, "C12": 14, "C03": 5, "C01": 5, "mix": 4, "C13": 6}[k]
+			profiles[k] = p
+		}
+		if p.pOddWire == 0 {
+			p.pOddWire = 2
+			if v, ok := oddWireShare[k]; ok {
+				p.pOddWire = v
+			}
 			profiles[k] = p
 		}
 		if p.pGasHook == 0 {
@@ -267,6 +285,10 @@ var profiles = map[string]profile{
 	"C08": {name: "C08", minOps: 4, maxOps: 14, wRecv: 40, wMsg: 40, wDeposit: 0, wQuery: 20, pOrbiter: 96, pFee: 20, pBadPayload: 3,
 		pFault: 0, pLie: 0, pWrongSign: 10, pPass: 0, pHuge: 0, pBadDenom: 0, routes: cleanRoutes,
 		msgKinds: []string{"PauseProtocol", "UnpauseProtocol", "PauseCrossChains", "UnpauseCrossChains", "PauseCrossChains", "UnpauseCrossChains"}, mask: []int{0, 1, 4}, pPlanned: 70},
+	// C20, end-to-end part: pauses of identifiers (batches, repeats, edges of the accepted range) followed by probe transfers
+	"C20": {name: "C20", minOps: 5, maxOps: 14, wRecv: 40, wMsg: 45, wDeposit: 0, wQuery: 15, pOrbiter: 97, pFee: 10, pBadPayload: 2,
+		pFault: 0, pLie: 0, pWrongSign: 4, pPass: 0, pHuge: 0, pBadDenom: 0, routes: []string{"cctp", "hyp", "cctp", "hyp", "internal"},
+		msgKinds: []string{"PauseCrossChains", "UnpauseCrossChains", "PauseCrossChains", "PauseCrossChains", "PauseProtocol", "UnpauseProtocol"}, mask: []int{0, 1, 4}, pPlanned: 60},
 	"C09": {name: "C09", minOps: 3, maxOps: 10, wRecv: 45, wMsg: 35, wDeposit: 0, wQuery: 20, pOrbiter: 96, pFee: 60, pBadPayload: 3,
 		pFault: 0, pLie: 0, pWrongSign: 10, pPass: 0, pHuge: 0, pBadDenom: 0, routes: cleanRoutes,
 		msgKinds: []string{"PauseAction", "UnpauseAction", "PauseAction", "UnpauseAction", "PauseProtocol"}, mask: []int{0, 1, 2, 4}, pPlanned: 75},
@@ -325,9 +347,9 @@ var protoNames = []string{"PROTOCOL_IBC", "PROTOCOL_CCTP", "PROTOCOL_HYPERLANE",
 func (g *gen) domainFor(kind string) uint32 {
 	switch kind {
 	case "cctp":
-		return rng.Pick(g.r, []uint32{0, 0, 1, 2, 3, 5, 6, 7, 4, 9})
+		return rng.Pick(g.r, []uint32{0, 0, 1, 2, 3, 5, 6, 7, 4, 9, 0, 0, 1, 2, 3, 5, 2147483647, 2147483648, 4294967295})
 	default:
-		return rng.Pick(g.r, []uint32{1, 1, 1, 2, 1313817164, 1196573006})
+		return rng.Pick(g.r, []uint32{1, 1, 1, 2, 1313817164, 1196573006, 1, 1, 2, 2147483648, 4294967295})
 	}
 }
 
@@ -586,6 +608,10 @@ func (g *gen) genPacket() (world.Packet, pktInfo) {
 				fl2, _ := genFeeList(r, A)
 				spec.fees = append(spec.fees, fl2) // repeated action id
 				info.shape += "/repeated-action"
+				if r.Chance(50) {
+					spec.apart = true // ... with another action between the two
+					info.shape += "-apart"
+				}
 			}
 		}
 		if r.Chance(g.p.pSwap) {
@@ -632,7 +658,7 @@ func (g *gen) genPacket() (world.Packet, pktInfo) {
 				ok := true
 				switch spec.fwd.kind {
 				case "cctp":
-					ok = final == sim.USDC && spec.fwd.domain != 4 && spec.fwd.domain != 9
+					ok = final == sim.USDC && cctpDomainOK(spec.fwd.domain)
 				case "hyp":
 					ok = spec.fwd.domain == 1 && string(spec.fwd.token) == g.w.S.HypTokens[final] && len(spec.fwd.hook) == 0
 				}
@@ -649,7 +675,7 @@ func (g *gen) genPacket() (world.Packet, pktInfo) {
 			}
 			switch spec.fwd.kind {
 			case "cctp": // the token factory burns only its minting denomination; remote token messengers exist for these domains
-				ok = ok && native == sim.USDC && spec.fwd.domain != 4 && spec.fwd.domain != 9
+				ok = ok && native == sim.USDC && cctpDomainOK(spec.fwd.domain)
 			case "hyp": // an enrolled router exists for domain 1 only; a custom hook id must name an existing hook
 				ok = ok && spec.fwd.domain == 1 && string(spec.fwd.token) == g.w.S.HypTokens[native] && len(spec.fwd.hook) == 0
 			}
@@ -680,7 +706,7 @@ func (g *gen) genPacket() (world.Packet, pktInfo) {
 	return p, info
 }
 
-var ccPool = map[string][]string{"PROTOCOL_CCTP": {"0", "1", "2", "3", "5", "6", "7", "10", "100"}, "PROTOCOL_HYPERLANE": {"1", "2", "77", "7"},
+var ccPool = map[string][]string{"PROTOCOL_CCTP": {"0", "1", "2", "3", "5", "6", "7", "10", "100", "2147483648", "4294967295"}, "PROTOCOL_HYPERLANE": {"1", "2", "77", "7", "2147483648", "4294967295"},
 	"PROTOCOL_INTERNAL": {"noble"}, "PROTOCOL_IBC": {"channel-0", "channel-1"}}
 
 func (g *gen) hasKind(k string) bool {
@@ -742,6 +768,22 @@ func (g *gen) plannedMsg() (world.Msg, bool) {
 		if len(on) > 0 && g.hasKind("UnpauseCrossChains") {
 			cands = append(cands, world.Msg{Kind: "UnpauseCrossChains", ID: pn, IDs: pick(on)})
 		}
+		// mixed batches: an identifier that is already in the requested state among ones that are not, at any
+		// position - the whole message is to be refused and nothing of it kept
+		if len(on) > 0 && len(off) > 0 && r.Chance(35) {
+			mix := func(first, rest []string) []string {
+				ids := append([]string{first[r.Intn(len(first))]}, pick(rest)...)
+				k := r.Intn(len(ids))
+				ids[0], ids[k] = ids[k], ids[0]
+				return ids
+			}
+			if g.hasKind("PauseCrossChains") {
+				cands = append(cands, world.Msg{Kind: "PauseCrossChains", ID: pn, IDs: mix(on, off)})
+			}
+			if g.hasKind("UnpauseCrossChains") {
+				cands = append(cands, world.Msg{Kind: "UnpauseCrossChains", ID: pn, IDs: mix(off, on)})
+			}
+		}
 	}
 	for _, an := range []string{"ACTION_FEE", "ACTION_SWAP"} {
 		if g.absAct[an] && g.hasKind("UnpauseAction") {
@@ -762,6 +804,12 @@ func (g *gen) plannedMsg() (world.Msg, bool) {
 	if r.Chance(g.p.pWrongSign) {
 		m.Signer = rng.Pick(r, []string{g.a.users[0].Bech, sim.OrbiterAddr().String(), "", "noble1invalid", world.ModAddr("gov").String()})
 		return m, true
+	}
+	// a mixed batch is refused as a whole: the assumed state stays
+	for _, c := range m.IDs {
+		if (m.Kind == "PauseCrossChains" && g.absCC[m.ID+"|"+c]) || (m.Kind == "UnpauseCrossChains" && !g.absCC[m.ID+"|"+c]) {
+			return m, true
+		}
 	}
 	switch m.Kind {
 	case "PauseProtocol":
@@ -810,8 +858,8 @@ func (g *gen) genMsg() world.Msg {
 	case "PauseCrossChains", "UnpauseCrossChains":
 		m.ID = rng.Pick(r, []string{"PROTOCOL_CCTP", "PROTOCOL_CCTP", "PROTOCOL_HYPERLANE", "PROTOCOL_INTERNAL", "PROTOCOL_IBC", "PROTOCOL_UNSUPPORTED", "x"})
 		n := rng.Pick(r, []int{0, 1, 1, 1, 2, 3})
-		pool := map[string][]string{"PROTOCOL_CCTP": {"0", "1", "2", "3", "5", "01", "+1", "4294967296", "x", ""},
-			"PROTOCOL_HYPERLANE": {"1", "2", "77", "1313817164", "-1"}, "PROTOCOL_INTERNAL": {"noble", "other", ""},
+		pool := map[string][]string{"PROTOCOL_CCTP": {"0", "1", "2", "3", "5", "01", "+1", "4294967296", "x", "", "2147483647", "2147483648", "4294967295"},
+			"PROTOCOL_HYPERLANE": {"1", "2", "77", "1313817164", "-1", "2147483648", "3000000000", "4294967295"}, "PROTOCOL_INTERNAL": {"noble", "other", ""},
 			"PROTOCOL_IBC": {"channel-0", "channel-1", "channel-01", "chan"}}[m.ID]
 		if pool == nil {
 			pool = []string{"0"}
@@ -853,7 +901,7 @@ func (g *gen) genQuery() world.Query {
 		q.ID = rng.Pick(r, append(protoNames, "x"))
 	case "IsCrossChainPaused":
 		q.ID = rng.Pick(r, []string{"PROTOCOL_CCTP", "PROTOCOL_HYPERLANE", "PROTOCOL_INTERNAL"})
-		q.CP = rng.Pick(r, []string{"0", "1", "2", "noble", "01", "", "channel-0", "channel-7", "other", "77"})
+		q.CP = rng.Pick(r, []string{"0", "1", "2", "noble", "01", "", "channel-0", "channel-7", "other", "77", "2147483648", "4294967295"})
 	case "IsActionPaused":
 		q.ID = rng.Pick(r, []string{"ACTION_FEE", "ACTION_SWAP", "x"})
 	}
@@ -1081,3 +1129,12 @@ func (wr *worldRunner) normalise(pl *core.Payload) (out *core.Payload, ok bool) 
 
 var _ = orbtypes.MarshalJSON
 var _ = transfertypes.ModuleName
+
+// cctpDomainOK: the sim registers a remote token messenger for these domains only (4 is Noble's own).
+func cctpDomainOK(d uint32) bool {
+	switch d {
+	case 0, 1, 2, 3, 5, 6, 7:
+		return true
+	}
+	return false
+}
